@@ -79,9 +79,18 @@ type Specs struct {
 	SpecFns  map[string]*SpecFn
 	Errors   []string
 	Scan     []string // mechanical scan hits for assume/trusted
+	TagRules []*TagRule
 }
 
-var clauseRe = regexp.MustCompile(`^(requires|ensures|invariant|decreases|callsite|nopanic|assigns|pure|loop|func|spec|order-independent|trusted|table|row|exact|except)\b(\[[A-Z0-9, ]*\])?\s*(.*)$`)
+// TagRule: `rendered[Cxx] <Type>.<Field> : <reason>` — the field's value when the attribute is absent from a file
+// is not the Go zero value, so the zero value must be written by the renderers: no `omitempty` in its tags
+type TagRule struct {
+	Pkg, Type, Field string
+	Props            []string
+	Where, Why       string
+}
+
+var clauseRe = regexp.MustCompile(`^(requires|ensures|invariant|decreases|callsite|rendered|nopanic|assigns|pure|loop|func|spec|order-independent|trusted|table|row|exact|except)\b(\[[A-Z0-9, ]*\])?\s*(.*)$`)
 
 func parseProps(s string) []string {
 	s = strings.Trim(s, "[]")
@@ -256,6 +265,17 @@ func (sp *Specs) loadFile(path string) {
 				}
 				curLoop.Decreases = cl
 			}
+		case "rendered":
+			tf := strings.SplitN(strings.TrimSpace(strings.SplitN(rest, " : ", 2)[0]), ".", 2)
+			if len(tf) != 2 || pkg == "" {
+				sp.Errors = append(sp.Errors, where+": rendered needs <Type>.<Field> : <reason>, after the package clause")
+				continue
+			}
+			why := ""
+			if i := strings.Index(rest, " : "); i >= 0 {
+				why = rest[i+3:]
+			}
+			sp.TagRules = append(sp.TagRules, &TagRule{Pkg: pkg, Type: tf[0], Field: tf[1], Props: props, Where: where, Why: why})
 		case "callsite":
 			if cur == nil {
 				sp.Errors = append(sp.Errors, where+": callsite outside func")
